@@ -40,11 +40,28 @@ def decode_spec(s):
     return {"int": 3, "none": None, "tuple": ("a",), "bytes": b"a", "float": 1.5, "list": ["a"]}[k]
 
 
+_ANN_CACHE = {}
+REUSE = [False]
+
+
 def build(cat, arr, spec):
+    """with REUSE on, every distinct (category, array type, dims) gets ONE annotation object for the whole worker process --
+    what a module-level alias is in real code; otherwise annotations are built afresh for every check"""
     import jaxtyping
     Cat = getattr(jaxtyping, cat)
+    key = None
+    if REUSE[0] and isinstance(spec, str):
+        try:
+            key = (cat, repr(arr), spec)
+        except Exception:
+            key = None
+    if key is not None and key in _ANN_CACHE:
+        return "ok", _ANN_CACHE[key]
     try:
-        return "ok", Cat[arr, spec]
+        ann = Cat[arr, spec]
+        if key is not None:
+            _ANN_CACHE[key] = ann
+        return "ok", ann
     except ValueError:
         return "ValueError", None
     except BaseException as e:  # noqa
@@ -181,6 +198,7 @@ def main():
                 b, ann = build("Float", np.ndarray, decode_spec(s))
                 res.append({"build": b, "dims": canon_dims(ann) if ann is not None else None})
         elif req["mode"] == "sessions":
+            REUSE[0] = bool(req.get("reuse"))
             cats = sorted({st.get("cat", "Float") for se in req["sessions"] for st in se["steps"]})
             res = {"results": run_sessions(req["sessions"]), "cat_dtypes": cat_dtypes(cats)}
         else:
